@@ -146,6 +146,16 @@ fn parent_main(corpus_dir: &str, out_dir: &str, tier: &str) {
     std::fs::create_dir_all(&jobs_dir).unwrap();
     let seed = vcommon::Rng::from_env().0;
     let thorough = tier == "thorough";
+    // Workers are spawned from a private copy of this executable: a concurrent `cargo build` (another
+    // check, another engineer) replaces target/debug/h14 under a running parent otherwise.
+    let worker_exe = {
+        let dst = std::path::PathBuf::from(format!("{out_dir}/h14.worker"));
+        let src = std::env::current_exe().unwrap();
+        match std::fs::copy(&src, &dst) {
+            Ok(_) => dst,
+            Err(_) => src,
+        }
+    };
     let mut jobs = items::plan_jobs(corpus_dir, &jobs_dir, thorough, seed);
     // H14_ONLY=tpl,wit : run only these job kinds (debugging aid)
     if let Ok(only) = std::env::var("H14_ONLY") {
@@ -173,6 +183,7 @@ fn parent_main(corpus_dir: &str, out_dir: &str, tier: &str) {
             let counter = counter.clone();
             let skipped_jobs = skipped_jobs.clone();
             let jobs_dir = jobs_dir.clone();
+            let worker_exe = worker_exe.clone();
             sc.spawn(move || {
                 loop {
                     let Some(mut js) = queue.lock().unwrap().pop() else { break };
@@ -187,7 +198,7 @@ fn parent_main(corpus_dir: &str, out_dir: &str, tier: &str) {
                     let jf = format!("{jobs_dir}/job_{id}.json");
                     std::fs::write(&jf, serde_json::to_string(&js.job).unwrap()).unwrap();
                     let tj = Instant::now();
-                    let exe = std::env::current_exe().unwrap();
+                    let exe = worker_exe.clone();
                     let mut child = Command::new(exe)
                         .arg("worker")
                         .arg(&jf)
@@ -288,7 +299,7 @@ fn parent_main(corpus_dir: &str, out_dir: &str, tier: &str) {
                         dj["dump"] = json!(dump);
                         let djf = format!("{jobs_dir}/job_{id}.dump.json");
                         let _ = std::fs::write(&djf, serde_json::to_string(&dj).unwrap());
-                        let _ = Command::new(std::env::current_exe().unwrap())
+                        let _ = Command::new(worker_exe.clone())
                             .arg("worker").arg(&djf).stdout(Stdio::null()).stderr(Stdio::null()).status();
                         let input: Value = std::fs::read_to_string(&dump)
                             .ok().and_then(|t| serde_json::from_str(&t).ok()).unwrap_or(Value::Null);
